@@ -493,9 +493,14 @@ func cacheEngine(c *Ctx) {
 		for _, op := range ls {
 			if strings.HasPrefix(op, "cache ") {
 				cacheExec(c, op)
+			} else if strings.HasPrefix(op, "cache-foreign ") {
+				cacheForeignOrder(c, op)
 			}
 		}
 		return
+	}
+	for k := 0; k < 3; k++ {
+		cacheForeignOrder(c, fmt.Sprintf("cache-foreign %d", k))
 	}
 	n := 25
 	if c.Tier == "thorough" {
@@ -544,4 +549,57 @@ func cacheEngine(c *Ctx) {
 		}
 		cacheExec(c, fmt.Sprintf("cache %d %d %s %s %s", c.Rand()%1000000, nw, strings.Join(ps, ";"), strings.Join(sch, ","), pre))
 	}
+}
+
+// cacheForeignOrder: wares written by somebody else — entries in any order (children before their directory's own entry),
+// directory entries missing — unpacked through the cache: the shelf holds exactly the fileset the archive encodes (what
+// its id, the reference tree hash, says). Recipe: "cache-foreign <k>".
+func cacheForeignOrder(c *Ctx, op string) {
+	caseCounter++
+	base := filepath.Join(c.Work, fmt.Sprintf("cfo%d", caseCounter))
+	defer rmrf(base)
+	wh := filepath.Join(base, "wh")
+	os.MkdirAll(wh, 0755)
+	ctx := context.Background()
+	uf := api.MustParseFilesetUnpackFilter(losslessUnpackStr)
+	variants := []hdrOpts{{dirsAfterKids: true}, {dirsAfterKids: true, dotSlash: true}, {dropDirs: 0.5}, {}}
+	for vi, o := range variants {
+		fsx := c.GenFileset(GenOpts{MaxEntries: 8, Kinds: "ffddL", BigIds: false, Setid: true, MaxContent: 300})
+		sanitizeForRoundtrip(fsx, "tar")
+		if vi == 0 { // a directory with an owner and mode of its own, its child ahead of it
+			fsx = Fileset{{Name: "", Kind: 'd', Perms: 0755, Uid: 0, Gid: 0, Sec: 1e9}, {Name: "a", Kind: 'd', Perms: 0700, Uid: 4000, Gid: 4001, Sec: 1e9 - 5}, {Name: "a/f", Kind: 'f', Perms: 0644, Uid: 7, Gid: 8, Sec: 1e9 - 9, Content: []byte("f")}}
+		}
+		hdrs, eff := c.filesetToHdrs(fsx, o)
+		stream, err := encodeTar(hdrs, "pax")
+		if err != nil {
+			continue
+		}
+		for i := range eff {
+			eff[i].Nsec = 0
+		}
+		id := api.WareID{Type: "tar", Hash: misc.Base58Encode(RefTreeHash(eff, sha384))}
+		p := storedWarePath("ca", wh, id)
+		os.MkdirAll(filepath.Dir(p), 0755)
+		os.WriteFile(p, stream, 0644)
+		cache := filepath.Join(base, fmt.Sprintf("cache%d", vi))
+		os.Setenv("RIO_CACHE", cache)
+		os.Setenv("RIO_BASE", filepath.Join(base, "riobase"))
+		id2, err2, pan2 := safeCall(func() (api.WareID, error) {
+			return tartrans.Unpack(ctx, id, "-", uf, rio.Placement_None, []api.WarehouseLocation{whAddr("ca", wh)}, rio.Monitor{})
+		})
+		r := resTok(id2, err2, pan2)
+		c.H(fmt.Sprintf("cache-foreign:v%d:%s", vi, strings.Fields(r)[0]))
+		if r != "ok "+id.Hash {
+			continue // (whether every such archive is accepted is C05's business)
+		}
+		shelf := filepath.Join(cache, "tar", "fileset", id.Hash[0:3], id.Hash[3:6], id.Hash)
+		got, e := Snapshot(shelf)
+		if e != nil {
+			c.PropFail("cache-shelf-missing", "an unpack through the cache succeeded but its shelf cannot be walked: "+e.Error(), op)
+		} else if got.Digest(true) != eff.Digest(true) {
+			c.PropFail("cache-shelf-tree", fmt.Sprintf("a foreign tar (entry order variant %d) was verified as %s, but its shelf does not hold that fileset: %s", vi, id.Hash[:8], DiffFilesets(eff, got, true)), op)
+		}
+	}
+	c.EmitR(op, "skip", "skip")
+	c.Distinct(op)
 }
